@@ -1,14 +1,15 @@
-(* C05 Constraint files honour the documented spuriousSSM input contract -- PARTIAL:
-   proved (at the level of the seeded link graph, for every exact closure table): every equality
-   representative is defined for a nucleotide position, is idempotent, is at most the position
-   itself; every complement representative is itself a representative and its own complement
-   representative is the position's equality representative (wc of wc = eq).  The template
-   clauses (equal => identical code, paired => complementary code), the blank separators and
-   the acceptance by the bundled binary are decided per case: the Coq-extracted predicate
-   contract_ok is evaluated on the real files, and a sanitised spuriousSSM built from the
-   working tree must accept them. *)
+(* C05 Constraint files honour the documented spuriousSSM input contract.
+   Proved (at the level of the seeded link graph, for every exact closure table / every document
+   whose seeded graph passes graph_ok): every equality representative is defined for a nucleotide
+   position, is idempotent, is at most the position itself; every complement representative is
+   itself a representative and its own complement representative is the position's equality
+   representative (wc of wc = eq); positions forced equal carry identical template codes and
+   positions forced complementary carry complementary codes (C05_template_codes_agree).
+   The blank separators, the 1-based file encoding and the acceptance by the bundled binary are
+   decided per case: the Coq-extracted predicate contract_ok is evaluated on the real files, and a
+   sanitised spuriousSSM built from the working tree must accept them. *)
 From Coq Require Import List String Ascii Arith.
-From PC Require Import Comp.Compile Design.Propagate Design.PropagateProofs Design.Designer Design.DesignerProofs.
+From PC Require Import Base.Codes Comp.Syntax Comp.Compile Design.Propagate Design.PropagateProofs Design.Designer Design.DesignerProofs Design.TemplateProofs.
 Import ListNotations.
 
 Definition exact_table (g : cgraph) (m : tbl) : Prop :=
@@ -33,3 +34,10 @@ Theorem C05_wc_points_at_rep : forall g npos m, exact_table g m -> forall i w, I
   wc_rep npos m i = Some w -> eq_rep npos m w = Some w.
 Proof. exact wc_rep_is_rep. Qed.
 Print Assumptions C05_wc_points_at_rep.
+
+Theorem C05_template_codes_agree : forall p so lay g, seed p so = OK (lay, g) -> graph_ok g = true ->
+  forall e w s, get_constraints p so = DOk e w s -> forall i j ci cj,
+  In i (g_keys g) -> nth_error s i = Some (Some ci) -> nth_error s j = Some (Some cj) ->
+  (gconn g i false j -> ci = cj) /\ (gconn g i true j -> compl_code ci = Some cj).
+Proof. exact template_codes_agree. Qed.
+Print Assumptions C05_template_codes_agree.
